@@ -8,9 +8,12 @@ Ltac Zify.zify_post_hook ::= Z.div_mod_to_equations.
 
 Lemma W64_eq : W64 = 18446744073709551616. Proof. reflexivity. Qed.
 Lemma p51_eq : 2 ^ 51 = 2251799813685248. Proof. reflexivity. Qed.
-Lemma wrap_eq x : wrap x = x mod 18446744073709551616. Proof. reflexivity. Qed.
+Lemma wrap_eq x : wrap x = x mod 18446744073709551616.
+Proof. unfold wrap. rewrite N.land_ones. reflexivity. Qed.
+Lemma hi64_eq x : hi64 x = x / 18446744073709551616.
+Proof. unfold hi64. rewrite N.shiftr_div_pow2. reflexivity. Qed.
 Lemma wrap_small x : x < 18446744073709551616 -> wrap x = x.
-Proof. intro H. unfold wrap. rewrite W64_eq. now apply N.mod_small. Qed.
+Proof. intro H. rewrite wrap_eq. now apply N.mod_small. Qed.
 Lemma lo51_eq x : lo51 x = x mod 2251799813685248.
 Proof. unfold lo51, mask51. change (2 ^ 51 - 1) with (N.ones 51). rewrite N.land_ones. reflexivity. Qed.
 Lemma shr51_eq x : shr51 x = x / 2251799813685248.
@@ -58,7 +61,7 @@ Definition wf128 (a : u128) : Prop := lo a < 18446744073709551616 /\ hi a < 1844
 Lemma mul64_spec a b : a < 18446744073709551616 -> b < 18446744073709551616 ->
   wf128 (mul64 a b) /\ v128 (mul64 a b) = a * b.
 Proof.
-  intros Ha Hb. unfold wf128, v128, mul64. cbn [lo hi]. rewrite W64_eq.
+  intros Ha Hb. unfold wf128, v128, mul64. cbn [lo hi]. rewrite wrap_eq, hi64_eq.
   assert (Hp : a * b < 18446744073709551616 * 18446744073709551616) by nia.
   generalize dependent (a * b). intros p Hp. repeat split; lia.
 Qed.
@@ -67,7 +70,7 @@ Lemma addMul64_spec v a b : wf128 v ->
   v128 v + a * b < 18446744073709551616 * 18446744073709551616 ->
   wf128 (addMul64 v a b) /\ v128 (addMul64 v a b) = v128 v + a * b.
 Proof.
-  destruct v as [vl vh]. unfold wf128, v128, addMul64. cbn [lo hi]. rewrite wrap_eq, W64_eq.
+  destruct v as [vl vh]. unfold wf128, v128, addMul64. cbn [lo hi]. rewrite !wrap_eq, !hi64_eq.
   generalize (a * b). intros p (Hl & Hh) Hp.
   assert (Hs : p / 18446744073709551616 + vh + (p mod 18446744073709551616 + vl) / 18446744073709551616
                < 18446744073709551616) by lia.
@@ -257,7 +260,7 @@ Proof.
   intros (A0 & A1 & A2 & A3 & A4) (B0 & B1 & B2 & B3 & B4).
   unfold fe_sub, two_p0, two_pi. cbn [l0 l1 l2 l3 l4]. rewrite !wrap_small by lia.
   assert (S : forall x y, y <= x -> x < 18446744073709551616 -> wsub x y = x - y).
-  { intros x y Hy Hx. unfold wsub. rewrite W64_eq. rewrite (N.mod_small y) by lia.
+  { intros x y Hy Hx. unfold wsub. rewrite !wrap_eq, W64_eq. rewrite (N.mod_small y) by lia.
     replace (x + 18446744073709551616 - y) with (x - y + 1 * 18446744073709551616) by lia.
     rewrite N.mod_add by discriminate. apply N.mod_small. lia. }
   rewrite !S by lia.
